@@ -38,7 +38,7 @@ CONF = {
             "oracle: exact math/big value of inner*current/total rounded half away from zero; one cell of tolerance only when the exact value is within 1e-9 of a half; go-runewidth cell widths (2-column runes: within one rune)",
         ],
         "tiers": tiers(8, 25000, 16, 400000, t_fuzz=[{"target": "FuzzC08", "seconds": 120}]),
-        "require_classes": ["product>=2^64", "wide", "refill", "pair", "total<=0", "current>=total"],
+        "require_classes": ["product>=2^64", "wide", "cluster", "refill", "pair", "total<=0", "current>=total"],
     },
     "C07": {
         "rule": "cases = (mode fill|decor|row, terminal width 0..250, requested width, bar/spinner/nop style over an alphabet with wide, zero-width, multi-rune and empty components, 0-4 decorators with W/C configs and wrapper stacks, int64 counters, 1-4 repeated renders); non-trivial = a component of width != 1, refill>0, requested>available, width<6 or decorators that do not fit; distinct by FNV-64 of the case JSON",
@@ -54,7 +54,7 @@ CONF = {
         "rule": "cases = (initial total over int64 classes, refresh mode none|manual|injected auto, with/without EWMA decorator, 0-40 operations drawn against the reference bar model so that mutators stop at the first terminal state: increments of all 6 flavours incl. negative and boundary amounts, SetCurrent/EwmaSetCurrent, SetTotal(+/-,complete), EnableTriggerComplete, SetRefill, Abort, getters, render cycles); non-trivial = >=3 mutators of >=2 kinds and the trigger flag was touched or the cap at total applied; distinct by FNV-64 of the case JSON",
         "assumptions": GO_ASSUME + ["reference model written from the method documentation in bar.go and the property statement; int64 wrap-around is not generated (no promise documented)", "a call that has not returned after 20 s (normal: microseconds) is reported as a hang"],
         "tiers": tiers(8, 12000, 16, 250000, t_fuzz=[{"target": "FuzzC09", "seconds": 90}]),
-        "require_classes": ["mode:none", "mode:manual", "mode:autoinj", "total<=0", "trigger-enabled-later", "completed", "aborted", "refill-read", "statistics-read"],
+        "require_classes": ["mode:none", "mode:manual", "mode:autoinj", "total<=0", "trigger-enabled-later", "completed", "aborted", "refill-read", "statistics-read", "keeper", "abort-on-completed"],
     },
     "C20": {
         "rule": "cases = one of: size/counter decorators (Current/Total/Counters x unit x format flags,width,precision,verb x int64 values at unit boundaries, mantissa*unit values, random), percentage (current at k/2000 of total, products beyond 2^64), elapsed / ETA / average ETA over the four time styles with durations below 60 h, moving-average and average speed, estimator sample sequences (0-50 samples incl. zero-progress and zero-duration samples, 0-4 wrapper layers, direct or through Bar.EwmaIncrInt64, recording or median average), freeze of elapsed/average speed on completion; non-trivial = value >= 1 unit above b with precision>0 or at a unit boundary, 0<current<total for percentages, durations >= 1 min, a zero-progress sample followed by progress, a twin decorator that did move while the frozen one did not; distinct by FNV-64 of the case JSON",
@@ -101,7 +101,7 @@ CONF = {
         "rule": "cases = concurrent scenarios with 1-4 client goroutines in 1-2 phases whose operations are ~50% Progress.Write calls with unique newline-terminated payloads (0-40 byte bodies) issued from a buffer that is overwritten after the call returns, racing with render cycles (real ticker, injected ticks, manual), completions, cancel/Shutdown (35%), the final render and Wait; plus 0-3 writes after Wait; non-trivial = >=1 successful write that overlapped a render cycle by event numbers, or a write that lost the race with the done event; distinct by FNV-64 of the scenario JSON",
         "assumptions": GO_ASSUME + SCHED_ASSUME + ["one output Write call = one frame; occurrences are searched in the concatenation of all chunks", "for manual refresh a successful write may stay unflushed when the program requests no further frame (the statement is about containers that refresh themselves)", "hangs are left to C01"],
         "tiers": tiers(8, 1500, 16, 20000),
-        "require_classes": ["refresh:autort", "refresh:autoinj", "refresh:manual", "write-overlaps-render", "write-errdone", "writes>=2", "cancelled", "late-write", "repeated-payload"],
+        "require_classes": ["refresh:autort", "refresh:autoinj", "refresh:manual", "write-overlaps-render", "write-errdone", "writes>=2", "cancelled", "late-write", "repeated-payload", "unterminated-write"],
     },
     "C15": {
         "rule": "cases = fault plans: the k-th Fill of one bar, the k-th extender call of one bar, the k-th output Write (error or short write) or the k-th terminal-size query (pty) fails, k in 1..4 (half of the cases, so every site kind x small k is covered many times over) or 1..12; 1-6 bars with 0-2 synchronised decorators per side in every layout, slow decorators and directed holds between width exchange and flush, manual / injected auto / real ticker refresh, n<=q and n>q; non-trivial = the fault fired while >=2 bars carry synchronised decorators; distinct by FNV-64 of the scenario JSON",
@@ -145,7 +145,7 @@ CONF = {
         "rule": "cases = clocked scenarios (manual refresh) on byte buffers and on ptys of 2-8 rows x 40-100 columns: bars added, removed, popped, queued, extended with 1-3 extra rows above or below, text written between frames, render delay, bar counts below/at/above the height; plus non-terminal containers without refresh; every chunk is fed to the VT emulator and the screen+scrollback compared with persisted lines ++ rows of the frame; non-trivial = >=3 frames and (row counts differ, or a frame within one row of the height, or text between frames); distinct by FNV-64 of the scenario JSON",
         "assumptions": GO_ASSUME + SCHED_ASSUME + ["VT100-subset emulator (LF implies CR as on a tty with ONLCR, cursor up clamps at the top, erase below, autowrap at the right margin, scroll into scrollback at the bottom) is part of the trusted base", "which rows persist and how many rows a frame has comes from the reference frame model (exact for manual refresh, one client, n<=q)", "terminal resize between frames is not modelled"],
         "tiers": tiers(8, 1200, 16, 30000),
-        "require_classes": ["refresh:manual", "refresh:none", "pty", "delay", "frame-near-height", "text-between-frames", "popped"],
+        "require_classes": ["refresh:manual", "refresh:none", "pty", "delay", "frame-near-height", "text-between-frames", "popped", "shutdown-while-delayed"],
     },
     "C18": {
         "rule": "cases = pop-completed scenarios: 1-8 bars finishing (complete, abort, abort with drop, remove-on-complete) in any order and in the same cycle, extender rows, text in between, no-pop bars, queued successors, byte buffers and ptys, manual refresh (exact frame model), injected auto refresh and a real ticker (final screen only); non-trivial = bars popped in >=2 different cycles and >=1 frame after the last pop (exact runs) or >=2 popped bars and >=4 frames; distinct by FNV-64 of the scenario JSON",
